@@ -1,449 +1,83 @@
-(* Invariant proof, part 6: AddLock (holder queue push) and AddWaitLock (wait queue push). *)
+(* Invariant proof, part 7: the critical sections (wake-up pass, Lock, UnLock, cancelWaitLock, doTimeOut, doExpried). *)
 From Coq Require Import String ZifyN ZifyBool ZifyNat Permutation.
 From Slock Require Import Engine.Types Engine.Queues Engine.Timers Engine.Engine Engine.Engine2 Engine.InvDef Engine.InvBase
-  Engine.InvPrims Engine.InvRec Engine.InvWheel Engine.InvQueue.
+  Engine.InvPrims Engine.InvRec Engine.InvWheel Engine.InvQueue Engine.InvQueue2.
 Open Scope N_scope.
 
-Lemma length_zero_nil {A} (l : list A) : length l = O -> l = [].
-Proof. destruct l; simpl; [auto|discriminate]. Qed.
+(* the ghost of a critical section on key k at rest (sweepers may hold references) *)
+Definition gk (xt xe : list ref) (k : N) : ghost := mkGhost xt xe [] [] [] [] k false false 0 0 0.
 
-Lemma grow_cap_ne0 c : c <> 0 -> grow_cap c <> 0.
-Proof. unfold grow_cap. intros H. destruct (c =? 48); [lia|]. destruct (c =? 111); [lia|]. destruct (c =? 64); lia. Qed.
+Lemma gk_rekey s xt xe k k' : GInv s (gk xt xe k) -> GInv s (gk xt xe k').
+Proof. intros G. apply (ginv_set_dk s (gk xt xe k) k' G); reflexivity. Qed.
+Lemma inv_gk s k : Inv s -> GInv s (gk [] [] k).
+Proof. intros G. apply (ginv_set_dk s g0 k G); reflexivity. Qed.
+Lemma gk_inv s k : GInv s (gk [] [] k) -> Inv s.
+Proof. intros G. apply (ginv_set_dk s (gk [] [] k) 0 G); reflexivity. Qed.
 
-(* ---------------------------------------------------------------- LockManagerLockQueue.Push *)
-Lemma hq_push_ginv s g k q r lr m :
-  GInv s g -> g_dk g = k -> g_pw g = false -> g_owe g = [] -> g_ph g = [] -> g_pre g = [r] ->
-  aget (mgrs s) k = Some m -> holders m = cur_list m ++ hq_items q ->
-  aget (store s) r = Some lr -> 0 < l_locked lr -> ~ In r (holders m) ->
-  map_ok s q -> hq_capok q ->
-  exists ph', let '(s', q') := hq_push s q r in
-    GInv s' (g <| g_ph := ph' |>) /\ qframe s s'
-    /\ (forall r0, (occ r0 (hq_items q') + occ r0 ph' = occ r0 (hq_items q) + occ r0 [r])%nat)
-    /\ map_ok s' q' /\ hq_capok q' /\ aget (store s') r = Some lr.
+(* a granter / new waiter borrows a sweeper slot for the record it is about to put on a wheel *)
+Lemma ginv_borrow_e s g r l : GInv s g -> aget (store s) r = Some l -> ecount s g r = O -> l_timeouted l = true ->
+  GInv s (g <| g_xe := r :: g_xe g |> <| g_owe := r :: g_owe g |>).
 Proof.
-  intros G Hk Hpw Ho Hp Hq Hm Hhol Hr Hlive Hnin Hmap Hcap.
-  assert (Hnq : ~ In r (hq_items q)) by (intros Hi; apply Hnin; rewrite Hhol; apply in_or_app; auto).
-  unfold hq_push. destruct (hq_scale q) as [[items mp]|] eqn:Es.
-  - (* scale queue *)
-    exists (g_ph g). rewrite gph_id.
-    split; [exact G|]. split; [apply qframe_refl|]. split; [|split; [|split; [|exact Hr]]].
-    + intros r0. unfold hq_items. cbn. rewrite Es, Hp. rewrite !occ_app. simpl occ. lia.
-    + intros items0 mp0 Hs id r1 H1. cbn in Hs. inversion Hs; subst items0 mp0. rewrite aget_aset in H1.
-      destruct (c_lockid (l_cmd (getl s r)) =? id) eqn:E.
-      * inversion H1; subst r1. apply N.eqb_eq in E. rewrite (getl_some _ _ _ Hr) in *. split; [apply in_or_app; right; simpl; auto|]. split; auto.
-      * destruct (Hmap items mp Es id r1 H1) as [C1 [C2 C3]]. split; [apply in_or_app; auto|auto].
-    + unfold hq_capok in *. cbn. exact Hcap.
-  - destruct (hq_cap q =? 0) eqn:Ec.
-    + (* nil slice *)
-      apply N.eqb_eq in Ec. specialize (Hcap Ec).
-      exists (g_ph g). rewrite gph_id. split; [exact G|]. split; [apply qframe_refl|]. split; [|split; [|split; [|exact Hr]]].
-      * intros r0. unfold hq_items. cbn. rewrite Es, Hcap, Hp. simpl. lia.
-      * intros items0 mp0 Hs. cbn in Hs. rewrite Es in Hs. discriminate.
-      * unfold hq_capok. cbn. intros; discriminate.
-    + apply N.eqb_neq in Ec. destruct (hq_len q <? hq_cap q) eqn:El.
-      * exists (g_ph g). rewrite gph_id. split; [exact G|]. split; [apply qframe_refl|]. split; [|split; [|split; [|exact Hr]]].
-        -- intros r0. unfold hq_items. cbn. rewrite Es, Hp, !occ_app. simpl. lia.
-        -- intros items0 mp0 Hs. cbn in Hs. rewrite Es in Hs. discriminate.
-        -- unfold hq_capok. cbn. intros; contradiction.
-      * destruct (hq_fast q) as [|x0 t0] eqn:Ef.
-        -- exists (g_ph g). rewrite gph_id. split; [exact G|]. split; [apply qframe_refl|]. split; [|split; [|split; [|exact Hr]]].
-           ++ intros r0. unfold hq_items. cbn. rewrite Es, Ef, Hp. simpl. lia.
-           ++ intros items0 mp0 Hs. cbn in Hs. rewrite Es in Hs. discriminate.
-           ++ unfold hq_capok. cbn. intros; contradiction.
-        -- (* compaction *)
-           rewrite <- Ef.
-           assert (Hitems : hq_items q = hq_fast q) by (unfold hq_items; rewrite Es, app_nil_r; auto).
-           assert (Hrel : forall r0, (occ r0 (cur_list m ++ hq_fast q) + occ r0 (g_ph g) = occ r0 (phl s g))%nat).
-           { intros r0. unfold phl. rewrite Hpw, Hk, (getm_some _ _ _ Hm), Hhol, Hitems, Hp. simpl. lia. }
-           assert (Hpre0 : forall x, In x (hq_fast q) -> occ x (g_pre g) = O).
-           { intros x Hx. rewrite Hq. simpl. destruct (r =? x) eqn:E; auto. apply N.eqb_eq in E; subst x.
-             exfalso. apply Hnq. rewrite Hitems. auto. }
-           destruct (hq_compact_ginv (hq_fast q) s g k (cur_list m) G Hk Hpw Ho Hpre0 Hrel) as [ph' P].
-           destruct (hq_compact s (hq_fast q)) as [s' kept]. destruct P as [P1 [P2 [P3 [P4 P5]]]].
-           assert (Hr' : aget (store s') r = Some lr) by (rewrite P5; auto; rewrite <- Hitems; auto).
-           assert (Hrelk : forall r0, (occ r0 kept + occ r0 ph' = occ r0 (hq_fast q))%nat).
-           { intros r0. specialize (P3 r0). unfold phl in P3. gs. rewrite Hpw, Hk in P3.
-             destruct (qframe_lists s s' k P2) as [Q1 _]. rewrite Q1, (getm_some _ _ _ Hm), Hhol, Hitems in P3.
-             rewrite !occ_app in P3. lia. }
-           exists ph'.
-           destruct (N.of_nat (length kept) <? hq_len q) eqn:Ek.
-           ++ split; [exact P1|]. split; [exact P2|]. split; [|split; [|split; [|exact Hr']]].
-              ** intros r0. unfold hq_items. cbn. rewrite Es, !occ_app. specialize (Hrelk r0). simpl. lia.
-              ** intros items0 mp0 Hs. cbn in Hs. rewrite Es in Hs. discriminate.
-              ** unfold hq_capok. cbn. intros; contradiction.
-           ++ destruct (hq_cap q <=? 128).
-              ** split; [exact P1|]. split; [exact P2|]. split; [|split; [|split; [|exact Hr']]].
-                 --- intros r0. unfold hq_items. cbn. rewrite Es, !occ_app. specialize (Hrelk r0). simpl. lia.
-                 --- intros items0 mp0 Hs. cbn in Hs. rewrite Es in Hs. discriminate.
-                 --- unfold hq_capok. cbn. intros Hg. exfalso. apply (grow_cap_ne0 _ Ec Hg).
-              ** (* switch to the scale queue: nothing was dropped *)
-                 apply N.ltb_ge in Ek. unfold hq_len in Ek. rewrite Hp in P4. simpl in P4.
-                 assert (Hph0 : ph' = []) by (apply length_zero_nil; lia).
-                 subst ph'.
-                 split; [exact P1|]. split; [exact P2|]. split; [|split; [|split; [|exact Hr']]].
-                 --- intros r0. unfold hq_items. cbn. rewrite Es, !occ_app. simpl. lia.
-                 --- intros items0 mp0 Hs id r1 H1. cbn in Hs. inversion Hs; subst items0 mp0. rewrite aget_aset in H1.
-                     destruct (c_lockid (l_cmd (getl s r)) =? id) eqn:E; [|simpl in H1; discriminate].
-                     inversion H1; subst r1. apply N.eqb_eq in E. rewrite (getl_some _ _ _ Hr) in E. rewrite (getl_some _ _ _ Hr').
-                     split; [simpl; auto|]. split; auto.
-                 --- unfold hq_capok. cbn. intros; contradiction.
+  intros G Hr He Ht.
+  eapply (wheels_ginv s s g); eauto; gs; try apply G.
+  - intros r0 l0 H0. destruct (gi_rec _ _ G r0 l0 H0) as [A1 A2 A3 A4 A5 A6 A7 A8 A9 A10 A11].
+    unfold tcount, ecount in *. gs. rewrite !occ_cons.
+    destruct (r =? r0) eqn:E.
+    + apply N.eqb_eq in E; subst r0. assert (l0 = l) by congruence. subst l0.
+      repeat split; try lia; auto; try (intros; congruence).
+    + repeat split; try lia; auto; try (intros Hti; destruct (A6 Hti) as [_ [Q _]]; lia).
+  - intros r0 H0. pose proof (gi_str _ _ G r0 H0) as S. unfold tcount, ecount in *. gs. rewrite occ_cons.
+    destruct (r =? r0) eqn:E; [apply N.eqb_eq in E; congruence|lia].
 Qed.
 
-(* ---------------------------------------------------------------- LockManager.AddLock *)
-Definition al_rec (s : db) (k : N) (l : lockrec) : lockrec :=
-  let c := l_cmd l in
-  let l := if has (c_tflag c) TF_UNRENEW then l
-           else let eT := expiry_deadline c (now s) in
-                l <| l_start := now s |> <| l_eT := eT |> <| l_ecc := initial_ecc c eT (now s) |> in
-  let m := getm s k in
-  let aoft := match m_cur m with None => aoftime_of s c | Some cr => l_aoftime (getl s cr) end in
-  let l := l <| l_aoftime := aoft |> <| l_locked := 1 |> <| l_refc := add8 (l_refc l) 1 |> in
-  if has (c_flag c) LOCK_FLAG_FROM_AOF then l <| l_isaof := true |>
-  else if has (c_tflag c) TF_REQUIRE_ACKED then l <| l_ack := 0 |> else l.
-
-Lemma add_lock_eq s k r :
-  add_lock s k r =
-  let s1 := setl s r (al_rec s k (getl s r)) in
-  match m_cur (getm s k) with
-  | None => updm s1 k (fun m => m <| m_cur := Some r |>)
-  | Some _ =>
-      let q := match m_locks (getm s k) with Some q => q | None => hq_empty end in
-      let '(s', q') := hq_push s1 q r in
-      updm s' k (fun m => m <| m_locks := Some q' |>)
-  end.
-Proof. reflexivity. Qed.
-
-Lemma al_rec_fields s k l : cmd_core (l_cmd l) ->
-  let l' := al_rec s k l in
-  l_key l' = l_key l /\ l_cmd l' = l_cmd l /\ l_locked l' = 1 /\ l_refc l' = add8 (l_refc l) 1
-  /\ l_timeouted l' = l_timeouted l /\ l_long l' = l_long l /\ l_tT l' = l_tT l /\ l_ack l' = l_ack l
-  /\ l_conn l' = l_conn l.
+Lemma ginv_borrow_t s g r l : GInv s g -> aget (store s) r = Some l -> tcount s g r = O ->
+  GInv s (g <| g_xt := r :: g_xt g |> <| g_owe := r :: g_owe g |>).
 Proof.
-  intros [C1 _]. unfold al_rec. cbv zeta. rewrite C1.
-  destruct (has (c_tflag (l_cmd l)) TF_UNRENEW); destruct (has (c_flag (l_cmd l)) LOCK_FLAG_FROM_AOF); destruct l; cbn; repeat split; auto.
+  intros G Hr He.
+  eapply (wheels_ginv s s g); eauto; gs; try apply G.
+  - intros r0 l0 H0. destruct (gi_rec _ _ G r0 l0 H0) as [A1 A2 A3 A4 A5 A6 A7 A8 A9 A10 A11].
+    unfold tcount, ecount in *. gs. rewrite !occ_cons.
+    destruct (r =? r0) eqn:E.
+    + apply N.eqb_eq in E; subst r0. assert (l0 = l) by congruence. subst l0.
+      repeat split; try lia; auto; try (intros Hti; destruct (A6 Hti) as [_ [Q _]]; lia).
+    + repeat split; try lia; auto; try (intros Hti; destruct (A6 Hti) as [_ [Q _]]; lia).
+  - intros r0 H0. pose proof (gi_str _ _ G r0 H0) as S. unfold tcount, ecount in *. gs. rewrite occ_cons.
+    destruct (r =? r0) eqn:E; [apply N.eqb_eq in E; congruence|lia].
 Qed.
 
-Record al_post (s s' : db) (k : N) (r : ref) (l : lockrec) : Prop := mkAlPost {
-  ap_rec : exists l2, aget (store s') r = Some l2 /\ l_key l2 = k /\ l_cmd l2 = l_cmd l /\ l_locked l2 = 1
-                      /\ l_timeouted l2 = true /\ l_long l2 = false /\ l_conn l2 = l_conn l;
-  ap_lf : lframe (setl s r (al_rec s k l)) s'
-}.
+(* ---------------------------------------------------------------- wakeUpWaitLock (non-ack part) *)
+Definition wg_pre (s : db) (r : ref) : db :=
+  let l := getl s r in
+  let s := updl s r (fun l => l <| l_timeouted := true |>) in
+  if l_long l then remove_long_timeout s r else s.
 
-Lemma add_lock_ginv s g k r l m :
-  GInv s g -> g_dk g = k -> g_ph g = [] -> g_pre g = [] -> g_owe g = [] -> g_pw g = false -> g_lk g = false ->
-  aget (store s) r = Some l -> l_key l = k -> aget (mgrs s) k = Some m ->
-  l_locked l = 0 -> l_timeouted l = true -> l_long l = false -> occ r (holders m) = O ->
-  GInv (add_lock s k r) (g <| g_dl := (g_dl g + 1)%Z |>) /\ al_post s (add_lock s k r) k r l.
+(* marking a live waiter as answered (timeouted := true) and taking it out of the long table *)
+Lemma wg_pre_ginv s xt xe k r l :
+  GInv s (gk xt xe k) -> aget (store s) r = Some l -> l_timeouted l = false ->
+  GInv (wg_pre s r) (gk xt xe k <| g_cw := (-1)%Z |>)
+  /\ exists l2, aget (store (wg_pre s r)) r = Some l2 /\ l_key l2 = l_key l /\ l_cmd l2 = l_cmd l /\ l_locked l2 = 0
+       /\ l_timeouted l2 = true /\ l_long l2 = false /\ l_conn l2 = l_conn l
+       /\ mgrs (wg_pre s r) = mgrs s /\ ewheel (wg_pre s r) = ewheel s /\ elong (wg_pre s r) = elong s
+       /\ cnt (wg_pre s r) = cnt s /\ next (wg_pre s r) = next s.
 Proof.
-  intros G Hk Hp Hq Ho Hpw Hlk Hr Hkey Hm Hd Ht Hlg Hh.
-  destruct (rec_counts s g r l G Hr) as [[C1 [C2 [C3 C4]]] _].
+  intros G Hr Ht. set (g := gk xt xe k) in *.
   destruct (gi_rec _ _ G r l Hr) as [A1 A2 A3 A4 A5 A6 A7 A8 A9 A10 A11].
-  rewrite Hkey, (getm_some _ _ _ Hm) in *.
-  destruct (gi_mgr _ _ G k m Hm) as [B1 B2 B3 B4 B5 B6 B7 B8 B9 Bb B10 Bc].
-  assert (Hlkk : lkk g k = false) by (unfold lkk; rewrite Hlk; apply andb_false_r).
-  specialize (B7 Hlkk). specialize (B8 Hlkk). specialize (B10 Hlkk).
-  rewrite add_lock_eq. cbv zeta. rewrite (getl_some _ _ _ Hr), (getm_some _ _ _ Hm).
-  set (l1 := al_rec s k l).
-  destruct (al_rec_fields s k l A9) as [F1 [F2 [F3 [F4 [F5 [F6 [F7 [F8 F9]]]]]]]]. fold l1 in F1, F2, F3, F4, F5, F6, F7, F8, F9.
-  assert (Hrefc : l_refc l + 1 < 256) by (rewrite Ho, Hp, Hq in A3; simpl in A3; lia).
-  rewrite add8_succ in F4 by auto.
-  (* step 1: the record *)
-  assert (G1 : GInv (setl s r l1) (g <| g_pre := [r] |>)).
-  { eapply (setl_ginv s g _ r l l1 G Hr); gs; auto; try congruence.
-    - rewrite Hq. occ_others.
-    - constructor; change (getm (setl s r l1) (l_key l1)) with (getm s (l_key l1));
-        change (tcount (setl s r l1) (g <| g_pre := [r] |>) r) with (tcount s g r);
-        change (ecount (setl s r l1) (g <| g_pre := [r] |>) r) with (ecount s g r);
-        rewrite ?F1, ?F3, ?F4, ?F5, ?F6, ?F7, ?F8, ?Hkey, ?(getm_some _ _ _ Hm), ?Ho, ?Hp; gs; rewrite ?occ_cons_eq; simpl occ; auto; try lia; try congruence.
-      rewrite Ho, Hp, Hq in A3. rewrite ?Ho, ?Hp. simpl in *. lia.
-    - rewrite Hkey, (getm_some _ _ _ Hm), Hh. destruct (k =? g_dk g); lia.
-    - rewrite Hkey, (getm_some _ _ _ Hm). auto.
-    - rewrite Hd. intros _ Hc. lia.
-    - rewrite Hp. simpl. tauto.
-    - rewrite Hp. simpl. lia.
-    - unfold liveb. rewrite F5. lia. }
-  set (s1 := setl s r l1) in *.
-  assert (Hr1 : aget (store s1) r = Some l1) by (unfold s1; rewrite store_setl, aget_aset_same; auto).
-  assert (Hm1 : aget (mgrs s1) k = Some m) by exact Hm.
-  assert (Hpre1 : forall r0, In r0 [r] ->
-     occ r0 [r] = 1%nat /\ occ r0 (holders m) = O /\
-     exists l0, aget (store s1) r0 = Some l0 /\ l_key l0 = k /\ l_timeouted l0 = true).
-  { intros r0 [<-|[]]. rewrite occ_cons_eq. simpl. repeat split; auto. exists l1. repeat split; try exact Hr1; congruence. }
-  assert (Hpost1 : exists l2, aget (store s1) r = Some l2 /\ l_key l2 = k /\ l_cmd l2 = l_cmd l /\ l_locked l2 = 1
-                      /\ l_timeouted l2 = true /\ l_long l2 = false /\ l_conn l2 = l_conn l).
-  { exists l1. repeat split; try exact Hr1; congruence. }
-  destruct (m_cur m) as [c|] eqn:Ec.
-  - (* pushed on the holder queue *)
-    set (q := match m_locks m with Some q => q | None => hq_empty end).
-    assert (Hhol : holders m = cur_list m ++ hq_items q).
-    { unfold holders, m_hq, q. destruct (m_locks m); reflexivity. }
-    assert (Hmapq : map_ok s1 q).
-    { unfold q. destruct (m_locks m) as [q0|] eqn:El.
-      - unfold s1. apply map_ok_setl; [apply B10; auto|]. intros items mp Hs id E.
-        destruct (B10 q0 eq_refl items mp Hs id r E) as [_ [Cl _]]. rewrite (getl_some _ _ _ Hr) in Cl. lia.
-      - intros items mp Hs. discriminate. }
-    assert (Hcapq : hq_capok q).
-    { unfold q. destruct (m_locks m) as [q0|] eqn:El; [exact (proj1 Bc q0 eq_refl)|intros _; reflexivity]. }
-    destruct (hq_push_ginv s1 (g <| g_pre := [r] |>) k q r l1 m G1) as [ph' P]; gs; auto; try lia.
-    { apply occ_notin. auto. }
-    destruct (hq_push s1 q r) as [s' q']. destruct P as [P1 [P2 [P3 [P4 [P5 P6]]]]].
-    destruct (qframe_mgr_some s1 s' k m P2 Hm1) as [n Hm'].
-    set (mo := m <| m_ref := n |>) in *. rewrite (updm_some _ _ _ _ Hm').
-    set (m' := mo <| m_locks := Some q' |>).
-    assert (Hhm' : holders m' = cur_list m ++ hq_items q') by (destruct m; reflexivity).
-    assert (Hhmo : holders mo = holders m) by (destruct m; reflexivity).
-    split.
-    + eapply ginv_geq; [apply (install_h s' _ k mo m' P1 Hm'); gs; auto|].
-      * intros r0. rewrite Hhm', Hhmo, Hhol, !occ_app. specialize (P3 r0). rewrite <- !Nat.add_assoc, P3. reflexivity.
-      * intros r0 Hi. destruct (Hpre1 r0 Hi) as [X1 [X2 [l0 [X3 [X4 X5]]]]]. rewrite Hhmo. repeat split; auto.
-        destruct Hi as [<-|[]]. exists l1. repeat split; try exact P6; congruence.
-      * intros c0 Hc0. assert (Hc1 : c0 = c) by (destruct m; cbn in *; congruence). subst c0.
-        assert (Hcr : c <> r).
-        { intros ->. apply occ_notin in Hh. apply Hh. unfold holders, cur_list. rewrite Ec. simpl. auto. }
-        assert (Hst : aget (store s') c <> None).
-        { apply (mo_refs _ _ _ _ (gi_mgr _ _ P1 k mo Hm')). unfold phk. gs. rewrite <- Hk, N.eqb_refl. rewrite Hhmo, occ_app.
-          pose proof (proj1 (occ_nodup _) B4 c) as N0. rewrite Hhol, occ_app in N0.
-          assert (Hc1 : occ c (cur_list m) = 1%nat) by (unfold cur_list; rewrite Ec; simpl; rewrite N.eqb_refl; reflexivity).
-          specialize (P3 c). rewrite occ_single in P3. destruct (r =? c) eqn:E; [apply N.eqb_eq in E; congruence|].
-          rewrite Hhol, occ_app, Hc1.
-          assert (occ c ph' = O) by (rewrite Hc1 in N0; destruct (occ c (hq_items q)); [destruct (occ c ph'); [reflexivity|rewrite Nat.add_0_r in P3; rewrite <- plus_n_Sm in P3; discriminate]|exfalso; clear - N0; inversion N0 as [|? N1]; inversion N1]).
-          rewrite H. apply Nat.lt_lt_add_r. apply Nat.lt_lt_add_r. apply Nat.lt_0_succ. }
-        rewrite (qframe_locked s1 s' c P2 Hst). unfold s1. rewrite getl_setl.
-        destruct (r =? c) eqn:E; [apply N.eqb_eq in E; subst; exfalso; apply occ_notin in Hh; apply Hh; unfold holders, cur_list; rewrite Ec; simpl; auto|].
-        apply B7; auto.
-      * intros Hc0. destruct m; cbn in *; congruence.
-      * intros q0 Hq0. assert (q0 = q') by (destruct mo; cbn in Hq0; congruence). subst q0. exact P4.
-      * intros q0 Hq0. assert (q0 = q') by (destruct mo; cbn in Hq0; congruence). subst q0. exact P5.
-      * match goal with |- _ = _ <| g_dl := ?e |> => replace e with (g_dl g + 1)%Z; [destruct g; gs; subst; reflexivity|] end.
-        gs. simpl. rewrite (getl_some _ _ _ P6), F3. lia.
-    + constructor.
-      * exists l1. repeat split; try congruence. change (store (setm s' k m')) with (store s'). exact P6.
-      * eapply lframe_trans; [apply qframe_lframe; exact P2|].
-        pose proof (lframe_updm_lists s' k (fun m => m <| m_locks := Some q' |>)) as LF. rewrite (updm_some _ _ _ _ Hm') in LF.
-        apply LF. intros m0. destruct m0; cbn. auto.
-  - (* becomes the current lock *)
-    rewrite (updm_some _ _ _ _ Hm1).
-    set (m' := m <| m_cur := Some r |>).
-    assert (Hhq : m_hq m = []) by auto.
-    assert (Hhm : holders m = []) by (unfold holders, cur_list; rewrite Ec, Hhq; reflexivity).
-    assert (Hhm' : holders m' = [r]) by (unfold holders, cur_list, m', m_hq in *; destruct m; cbn in *; rewrite Hhq; reflexivity).
-    split.
-    + eapply ginv_geq; [apply (install_h s1 _ k m m' G1 Hm1); gs; auto|].
-      * intros r0. rewrite Hhm', Hhm, Hp. simpl. lia.
-      * intros c0 Hc0. assert (c0 = r) by (destruct m; cbn in *; congruence). subst c0.
-        rewrite (getl_some _ _ _ Hr1), F3. lia.
-      * intros q0 Hq0. assert (Hq1 : m_locks m = Some q0) by (destruct m; exact Hq0).
-        unfold s1. apply map_ok_setl; [apply B10; auto|]. intros items mp Hs id E.
-        destruct (B10 q0 Hq1 items mp Hs id r E) as [_ [Cl _]]. rewrite (getl_some _ _ _ Hr) in Cl. lia.
-      * intros q0 Hq0. assert (Hq1 : m_locks m = Some q0) by (destruct m; exact Hq0). exact (proj1 Bc q0 Hq1).
-      * match goal with |- _ = _ <| g_dl := ?e |> => replace e with (g_dl g + 1)%Z; [destruct g; gs; subst; reflexivity|] end.
-        gs. simpl. rewrite (getl_some _ _ _ Hr1), F3. lia.
-    + constructor.
-      * exact Hpost1.
-      * pose proof (lframe_updm_lists s1 k (fun m => m <| m_cur := Some r |>)) as LF. rewrite (updm_some _ _ _ _ Hm1) in LF.
-        apply LF. intros m0. destruct m0; cbn. auto.
-Qed.
-
-(* ---------------------------------------------------------------- LockManagerWaitQueue.Push *)
-Lemma wq_compact_ginv items : forall s g k A,
-  GInv s g -> g_dk g = k -> g_pw g = true -> g_owe g = [] -> (forall x, In x items -> occ x (g_pre g) = O) ->
-  (forall r0, (occ r0 (A ++ items) + occ r0 (g_ph g) = occ r0 (phl s g))%nat) ->
-  exists ph', let '(s', kept) := wq_compact s items in
-    GInv s' (g <| g_ph := ph' |>) /\ qframe s s'
-    /\ (forall r0, (occ r0 (A ++ kept) + occ r0 ph' = occ r0 (phl s' (g <| g_ph := ph' |>)))%nat)
-    /\ (length ph' + length kept = length (g_ph g) + length items)%nat
-    /\ (forall x, ~ In x items -> aget (store s') x = aget (store s) x).
-Proof.
-  induction items as [|r rest IH]; intros s g k A G Hk Hpw Ho Hq Hrel.
-  - exists (g_ph g). simpl. rewrite gph_id. split; [exact G|]. split; [apply qframe_refl|]. split; [exact Hrel|]. split; [lia|auto].
-  - simpl. destruct (dead_waiter (getl s r)) eqn:El.
-    + assert (Hrel' : forall r0, (occ r0 (r :: A ++ rest) + occ r0 (g_ph g) = occ r0 (phl s g))%nat).
-      { intros r0. specialize (Hrel r0). rewrite occ_app, occ_cons in Hrel. rewrite occ_cons, occ_app. lia. }
-      assert (Hdead : aget (store s) r = None \/ l_timeouted (getl s r) = true).
-      { destruct (aget (store s) r) as [l|] eqn:Hr; auto. right. rewrite (getl_some _ _ _ Hr) in *.
-        rewrite <- (dead_waiter_timeouted s g r l G Hr). auto. }
-      destruct (drop_step s g k r (A ++ rest) G Hk Ho (Hq r (or_introl eq_refl)) Hrel' Hdead) as [G1 R1]; [rewrite Hpw; discriminate|].
-      destruct (IH (unref s r) (g <| g_ph := r :: g_ph g |>) k A G1 Hk Hpw Ho (fun x Hx => Hq x (or_intror Hx)) R1) as [ph' P]. exists ph'.
-      destruct (wq_compact (unref s r) rest) as [s' kept]. rewrite gph_twice in P. destruct P as [P1 [P2 [P3 [P4 P5]]]].
-      split; [exact P1|]. split; [eapply qframe_trans; [apply unref_qframe|exact P2]|]. split; [exact P3|]. split; [gs; simpl in *; lia|].
-      intros x Hx. rewrite P5 by (intros Hi; apply Hx; right; auto). apply unref_other. intros ->. apply Hx. left. auto.
-    + assert (Hrel' : forall r0, (occ r0 ((A ++ [r]) ++ rest) + occ r0 (g_ph g) = occ r0 (phl s g))%nat).
-      { intros r0. rewrite <- app_assoc. apply Hrel. }
-      destruct (IH s g k (A ++ [r]) G Hk Hpw Ho (fun x Hx => Hq x (or_intror Hx)) Hrel') as [ph' P]. exists ph'.
-      destruct (wq_compact s rest) as [s' kept]. destruct P as [P1 [P2 [P3 [P4 P5]]]].
-      split; [exact P1|]. split; [exact P2|]. split; [|split; [simpl; lia|]].
-      * intros r0. specialize (P3 r0). rewrite <- app_assoc in P3. exact P3.
-      * intros x Hx. apply P5. intros Hi. apply Hx. right. auto.
-Qed.
-
-Lemma occ_prio_insert s items r p r0 : occ r0 (prio_insert s items r p) = (occ r0 items + occ r0 [r])%nat.
-Proof.
-  induction items as [|x t IH]; simpl; [lia|]. destruct (prio_of (l_cmd (getl s x)) <? p); simpl; [lia|]. rewrite IH. simpl. lia.
-Qed.
-Lemma occ_repush_fold s l : forall acc r0,
-  occ r0 (fold_left (fun acc r => prio_insert s acc r (prio_of (l_cmd (getl s r)))) l acc) = (occ r0 acc + occ r0 l)%nat.
-Proof.
-  induction l as [|x t IH]; intros acc r0; simpl; [lia|]. rewrite IH, occ_prio_insert. simpl. lia.
-Qed.
-Lemma wq_repush_items s q r0 : occ r0 (wq_items (wq_repush s q)) = occ r0 (wq_items q).
-Proof.
-  unfold wq_repush. destruct (wq_mode q); auto; unfold wq_items at 1; cbn; rewrite occ_repush_fold; simpl; auto.
-Qed.
-Lemma wq_repush_capok s q : wq_capok q -> wq_capok (wq_repush s q).
-Proof.
-  unfold wq_capok, wq_repush. intros [H1 H2]. destruct (wq_mode q) eqn:E; cbn; rewrite ?E; auto; split; auto; discriminate.
-Qed.
-
-Lemma wq_push_ginv s g k q r lr m :
-  GInv s g -> g_dk g = k -> g_pw g = true -> g_owe g = [] -> g_ph g = [] -> g_pre g = [] ->
-  aget (mgrs s) k = Some m -> (forall r0, occ r0 (m_wq m) = occ r0 (wq_items q)) ->
-  aget (store s) r = Some lr -> ~ In r (m_wq m) -> wq_capok q ->
-  exists ph', let '(s', q') := wq_push s q r in
-    GInv s' (g <| g_ph := ph' |>) /\ qframe s s'
-    /\ (forall r0, (occ r0 (wq_items q') + occ r0 ph' = occ r0 (wq_items q) + occ r0 [r])%nat)
-    /\ wq_capok q' /\ aget (store s') r = Some lr.
-Proof.
-  intros G Hk Hpw Ho Hp Hq Hm Hperm Hr Hnin [Hc1 Hc2].
-  assert (Hnq : ~ In r (wq_items q)) by (intros Hi; apply Hnin; apply occ_In; rewrite Hperm; apply occ_In; auto).
-  unfold wq_push. destruct (wq_mode q) eqn:Emode.
-  - (* fast slice *)
-    specialize (Hc2 eq_refl).
-    assert (Hitems : wq_items q = wq_fast q) by (unfold wq_items; rewrite Hc2, app_nil_r; auto).
-    destruct (wq_cap q =? 0) eqn:Ec.
-    + apply N.eqb_eq in Ec. specialize (Hc1 Ec).
-      exists (g_ph g). rewrite gph_id. split; [exact G|]. split; [apply qframe_refl|]. split; [|split; [|exact Hr]].
-      * intros r0. unfold wq_items. cbn. rewrite Hc1, Hc2, Hp. simpl. lia.
-      * split; cbn; [intros; discriminate|rewrite Emode; auto].
-    + apply N.eqb_neq in Ec. destruct (wq_len q <? wq_cap q) eqn:El.
-      * exists (g_ph g). rewrite gph_id. split; [exact G|]. split; [apply qframe_refl|]. split; [|split; [|exact Hr]].
-        -- intros r0. unfold wq_items. cbn. rewrite Hc2, Hp, !occ_app. simpl. lia.
-        -- split; cbn; [intros; contradiction|rewrite Emode; auto].
-      * destruct (wq_fast q) as [|x0 t0] eqn:Ef.
-        -- exists (g_ph g). rewrite gph_id. split; [exact G|]. split; [apply qframe_refl|]. split; [|split; [|exact Hr]].
-           ++ intros r0. unfold wq_items. cbn. rewrite Ef, Hc2, Hp. simpl. lia.
-           ++ split; cbn; [intros; contradiction|rewrite Emode; auto].
-        -- assert (Ef' : wq_fast q = x0 :: t0) by exact Ef. rewrite <- Ef' in *. clear Ef'.
-           assert (Hrel : forall r0, (occ r0 ([] ++ wq_fast q) + occ r0 (g_ph g) = occ r0 (phl s g))%nat).
-           { intros r0. unfold phl. rewrite Hpw, Hk, (getm_some _ _ _ Hm), Hperm, Hitems, Hp. simpl. lia. }
-           assert (Hpre0 : forall x, In x (wq_fast q) -> occ x (g_pre g) = O) by (intros; rewrite Hq; reflexivity).
-           destruct (wq_compact_ginv (wq_fast q) s g k [] G Hk Hpw Ho Hpre0 Hrel) as [ph' P].
-           destruct (wq_compact s (wq_fast q)) as [s' kept]. destruct P as [P1 [P2 [P3 [P4 P5]]]].
-           assert (Hr' : aget (store s') r = Some lr) by (rewrite P5; auto; rewrite <- Hitems; auto).
-           assert (Hrelk : forall r0, (occ r0 kept + occ r0 ph' = occ r0 (wq_fast q))%nat).
-           { intros r0. specialize (P3 r0). unfold phl in P3. gs. rewrite Hpw, Hk in P3.
-             destruct (qframe_lists s s' k P2) as [_ [Q2 _]]. rewrite Q2, (getm_some _ _ _ Hm), Hperm, Hitems in P3.
-             simpl in P3. lia. }
-           exists ph'.
-           destruct (N.of_nat (length kept) <? wq_len q) eqn:Ek.
-           ++ split; [exact P1|]. split; [exact P2|]. split; [|split; [|exact Hr']].
-              ** intros r0. unfold wq_items. cbn. rewrite Hc2, !occ_app. specialize (Hrelk r0). simpl. lia.
-              ** split; cbn; [intros; contradiction|rewrite Emode; auto].
-           ++ destruct (wq_cap q <=? 128).
-              ** split; [exact P1|]. split; [exact P2|]. split; [|split; [|exact Hr']].
-                 --- intros r0. unfold wq_items. cbn. rewrite Hc2, !occ_app. specialize (Hrelk r0). simpl. lia.
-                 --- split; cbn; [intros Hg; exfalso; apply (grow_cap_ne0 _ Ec Hg)|rewrite Emode; auto].
-              ** apply N.ltb_ge in Ek. unfold wq_len in Ek. rewrite Hp in P4. simpl in P4.
-                 assert (Hph0 : ph' = []) by (apply length_zero_nil; lia). subst ph'.
-                 split; [exact P1|]. split; [exact P2|]. split; [|split; [|exact Hr']].
-                 --- intros r0. unfold wq_items. cbn. rewrite Hc2, !occ_app. simpl. lia.
-                 --- split; cbn; [exact Hc1|discriminate].
-  - exists (g_ph g). rewrite gph_id. split; [exact G|]. split; [apply qframe_refl|]. split; [|split; [|exact Hr]].
-    + intros r0. unfold wq_items. cbn. rewrite Hp, !occ_app. simpl. lia.
-    + split; cbn; [exact Hc1|rewrite Emode; discriminate].
-  - exists (g_ph g). rewrite gph_id. split; [exact G|]. split; [apply qframe_refl|]. split; [|split; [|exact Hr]].
-    + intros r0. unfold wq_items. cbn. rewrite Hp, !occ_app, occ_prio_insert. simpl. lia.
-    + split; cbn; [exact Hc1|rewrite Emode; discriminate].
-Qed.
-
-(* ---------------------------------------------------------------- LockManager.AddWaitLock *)
-Definition aw_choose (s : db) (k : N) (r : ref) : wqueue :=
-  let m := getm s k in
-  match m_wait m with
-  | None => wq_empty
-  | Some q =>
-      if m_waited m && negb (match wq_mode q with WPrio => true | _ => false end)
-      then match wq_head q with
-           | Some _ => if prio_of (l_cmd (getl s r)) =? wq_maxprio s q then q else wq_repush s q
-           | None => q
-           end
-      else q
-  end.
-Lemma add_wait_lock_eq s k r :
-  add_wait_lock s k r =
-  let '(s1, q1) := wq_push s (aw_choose s k r) r in
-  let s2 := updl s1 r (fun l => l <| l_refc := add8 (l_refc l) 1 |>) in
-  updm s2 k (fun m => m <| m_wait := Some q1 |> <| m_waited := true |>).
-Proof. reflexivity. Qed.
-
-Record aw_post (s s' : db) (k : N) (r : ref) (l : lockrec) : Prop := mkAwPost {
-  wp_rec : exists n, aget (store s') r = Some (l <| l_refc := n |>);
-  wp_in : occ r (m_wq (getm s' k)) = 1%nat;
-  wp_hold : holders (getm s' k) = holders (getm s k);
-  wp_lf : lframe s s'
-}.
-
-Lemma add_wait_lock_ginv s g k r l m :
-  GInv s g -> g_dk g = k -> g_ph g = [] -> g_pre g = [] -> g_owe g = [] -> g_pw g = false ->
-  aget (store s) r = Some l -> l_key l = k -> aget (mgrs s) k = Some m ->
-  l_locked l = 0 -> l_timeouted l = true -> occ r (m_wq m) = O ->
-  GInv (add_wait_lock s k r) g /\ aw_post s (add_wait_lock s k r) k r l.
-Proof.
-  intros G Hk Hp Hq Ho Hpw Hr Hkey Hm Hd Ht Hw.
-  destruct (gi_mgr _ _ G k m Hm) as [B1 B2 B3 B4 B5 B6 B7 B8 B9 Bb B10 Bc].
-  rewrite add_wait_lock_eq.
-  set (qc := aw_choose s k r).
-  assert (Hperm : forall r0, occ r0 (m_wq m) = occ r0 (wq_items qc)).
-  { intros r0. unfold qc, aw_choose. rewrite (getm_some _ _ _ Hm). unfold m_wq. destruct (m_wait m) as [q|]; [|reflexivity].
-    destruct (m_waited m && negb match wq_mode q with WPrio => true | _ => false end); auto.
-    destruct (wq_head q); auto. destruct (prio_of (l_cmd (getl s r)) =? wq_maxprio s q); auto. symmetry. apply wq_repush_items. }
-  assert (Hcapc : wq_capok qc).
-  { unfold qc, aw_choose. rewrite (getm_some _ _ _ Hm). destruct (m_wait m) as [q|] eqn:Ew; [|split; intros; reflexivity].
-    pose proof (proj2 Bc q eq_refl) as Cq. 
-    destruct (m_waited m && negb match wq_mode q with WPrio => true | _ => false end); auto.
-    destruct (wq_head q); auto. destruct (prio_of (l_cmd (getl s r)) =? wq_maxprio s q); auto. apply wq_repush_capok; auto. }
-  pose proof (ginv_set_pw s g true G Hp) as G1.
-  destruct (wq_push_ginv s (g <| g_pw := true |>) k qc r l m G1) as [ph' P]; gs; auto.
-  { apply occ_notin; auto. }
-  destruct (wq_push s qc r) as [s1 q1]. destruct P as [P1 [P2 [P3 [P4 P5]]]].
-  cbv zeta.
-  set (l2 := l <| l_refc := add8 (l_refc l) 1 |>).
-  assert (E2 : updl s1 r (fun l => l <| l_refc := add8 (l_refc l) 1 |>) = setl s1 r l2) by (exact (updl_some s1 r (fun l => l <| l_refc := add8 (l_refc l) 1 |>) l P5)).
-  assert (G2 : GInv (setl s1 r l2) (g <| g_pw := true |> <| g_ph := ph' |> <| g_pre := [r] |>)).
-  { rewrite <- E2. apply (updl_refc_pre s1 _ r l P1); gs; auto. }
-  rewrite E2.
-  set (s2 := setl s1 r l2) in *.
-  assert (Hr2 : aget (store s2) r = Some l2) by (unfold s2; rewrite store_setl, aget_aset_same; auto).
-  destruct (qframe_mgr_some s s1 k m P2 Hm) as [n Hm1].
-  set (mo := m <| m_ref := n |>) in *.
-  assert (Hm2 : aget (mgrs s2) k = Some mo) by exact Hm1.
-  rewrite (updm_some _ _ _ _ Hm2).
-  set (m' := mo <| m_wait := Some q1 |> <| m_waited := true |>).
-  assert (Hwm' : m_wq m' = wq_items q1) by (destruct m; reflexivity).
-  assert (Hwmo : m_wq mo = m_wq m) by (destruct m; reflexivity).
-  assert (Hhm' : holders m' = holders m) by (destruct m; reflexivity).
-  assert (Hrel : forall r0, (occ r0 (m_wq m') + occ r0 ph' = occ r0 (m_wq mo) + occ r0 [r])%nat).
-  { intros r0. rewrite Hwm', Hwmo, Hperm. apply P3. }
-  assert (GF : GInv (setm s2 k m') (g <| g_pw := true |> <| g_ph := ph' |> <| g_pre := [r] |> <| g_ph := [] |> <| g_pre := [] |> <| g_pw := false |>)).
-  { apply (install_w s2 _ k mo m' G2 Hm2); gs; auto; try (destruct m; reflexivity).
-    - intros r0 [<-|[]]. rewrite occ_cons_eq. simpl. rewrite Hwmo. repeat split; auto. exists l2. repeat split; auto.
-    - intros q0 Hq0. assert (q0 = q1) by (destruct m; cbn in Hq0; congruence). subst q0. exact P4. }
-  split.
-  - eapply ginv_geq; [exact GF|]. destruct g; gs; subst; reflexivity.
-  - constructor.
-    + exists (add8 (l_refc l) 1). exact Hr2.
-    + rewrite getm_setm_same, Hwm'. specialize (P3 r). rewrite <- Hperm, Hw, occ_cons_eq in P3. simpl in P3.
-      pose proof (gi_ph _ _ P1) as PH. gs.
-      destruct (occ r ph') eqn:E; [lia|]. exfalso.
-      assert (Hi : In r ph') by (apply occ_In; lia).
-      (* a phantom of the wait list was in the wait list *)
-      pose proof (gi_phle _ _ P1 r) as PL. unfold phl in PL. gs. rewrite Hk in PL.
-      destruct (qframe_lists s s1 k P2) as [_ [Q2 _]]. rewrite Q2, (getm_some _ _ _ Hm), Hw in PL. lia.
-    + rewrite getm_setm_same, Hhm', (getm_some _ _ _ Hm). reflexivity.
-    + eapply lframe_trans; [apply qframe_lframe; exact P2|].
-      eapply lframe_trans; [apply qframe_lframe; apply (setl_refc_qframe s1 r l (add8 (l_refc l) 1) P5)|].
-      pose proof (lframe_updm_lists s2 k (fun m => m <| m_wait := Some q1 |> <| m_waited := true |>)) as LF.
-      rewrite (updm_some _ _ _ _ Hm2) in LF.
-      (* m_waited changes: state the frame by hand *)
-      clear LF. constructor; auto.
-      * intros r0. change (store (setm s2 k m')) with (store s2). destruct (aget (store s2) r0) as [l0|]; auto.
+  destruct (A6 Ht) as [Q1 [Q2 [Q3 Q4]]].
+  unfold wg_pre. rewrite (getl_some _ _ _ Hr), (updl_some _ _ _ _ Hr). cbv zeta.
+  set (l1 := l <| l_timeouted := true |>).
+  pose proof (ginv_pend_add s g r G) as G1.
+  assert (G2 : GInv (setl s r l1) (g <| g_pend := [r] |> <| g_cw := (-1)%Z |>)).
+  { eapply ginv_geq; [apply (setl_flags s _ r l l1 G1 Hr); auto; unfold g, gk; gs|].
+    - intros _ Hpe. rewrite occ_cons_eq in Hpe. discriminate.
+    - unfold g, gk. gs. unfold liveb. change (l_timeouted l1) with true. rewrite Ht. reflexivity. }
+  assert (Hr1 : aget (store (setl s r l1)) r = Some l1) by (rewrite store_setl, aget_aset_same; auto).
+  destruct (l_long l) eqn:Elong.
+  - assert (Hb : occ r (wheel_get (tlong s) (lkey (l_tT l))) = 1%nat) by (apply A8; auto).
+    assert (G3 : GInv (remove_long_timeout (setl s r l1) r) (g <| g_pend := [r] |> <| g_cw := (-1)%Z |>)).
+    { apply (remove_long_timeout_ginv _ _ r l1 G2 Hr1); unfold g, gk; gs; auto;
+        try (rewrite occ_cons_eq; lia); try (change (l_locked l1) with (l_locked l); lia). }
+    assert (Hs3 : exists q, remove_long_timeout (setl s r l1) r =
+              setl (setl s r l1 <| tlong := q |>) r (l1 <| l_long := false |> <| l_refc := dec8 (l_refc l1) |>)).
+    { unfold remove_long_timeout. rewrite (getl_some _ _ _ Hr1). change (tlong (setl s r l1)) with (tlong s). change (l_tT l1) with (l_tT l).
+      destruct (wheel_get_some (tlong s) (lkey (l_tT l)) r) as [q [Hq1 Hq2]]; [lia|]. rewrite Hq1.
  Show. 
